@@ -8,8 +8,6 @@ RC.append(("forward-mode np.sort / np.partition of 2-D arrays (namespace scan; s
             ("C15", "sort", "fwd", "silently-wrong", "shape_rank:2"), ("C15", "partition", "fwd", "silently-wrong", "shape_rank:2")]))
 RC.append(("forward-mode np.linspace with an array-valued start or stop: the JVP rebuilds linspace(g, 0) and loses the other operand's shape",
            [("C15", "linspace", "fwd", "wrong-shape", "shape_rank:0")]))
-RC.append(("np.clip of a scalar/0-d x against array-valued bounds: the VJP is not summed back to x's shape",
-           [("C15", "clip", "rev", "wrong-shape", "shape_rank:0")]))
 RC.append(("np.linspace with array-valued start/stop (NumPy broadcasts them): the reverse rule contracts the wrong axis and returns silently wrong or misshapen gradients",
            [("C15", "linspace", "rev", "silently-wrong", "shape_rank:~[12]"), ("C15", "linspace", "rev", "wrong-shape", "shape_rank:~[012]"),
             ("C15", "linspace", "fwd", "silently-wrong", "shape_rank:~[12]"), ("C15", "linspace", "fwd", "wrong-shape", "shape_rank:~[12]")]))
@@ -24,7 +22,6 @@ RC.append(("forward mode of a binary/selection function with one real and one co
            [("C09", p, "fwd", "wrong-shape", "ops_cplx:~(cr|rc|rcr|crc)") for p in ("maximum", "minimum", "fmax", "fmin", "where", "select", "linspace")]))
 RC.append(("np.array([x, y], ndmin=3) (see C01 entry) with complex members", [("C09", "array", "fwd", "wrong-value", "ndmin:True,list_input:True"),
                                                                            ("C09", "array", "rev", "wrong-shape", "ndmin:True,list_input:True")]))
-RC.append(("np.cross with broadcasting operands (see C01 entry), complex operands", [("C09", "cross", "rev", "wrong-shape", "broadcast:True")]))
 RC.append(("np.diag of a non-square matrix (see C01 entry)", [("C09", "diag", "rev", "wrong-shape", "rank:2,square:False")]))
 RC.append(("np.make_diagonal allocates a float array, so complex input loses its imaginary part: wrong primal value and real-only derivatives (also behind np.diagonal's VJP)",
            [("C09", "make_diagonal", "rev", "wrong-shape", "arg_cplx:complex"), ("C09", "make_diagonal", "fwd", "wrong-shape", "arg_cplx:complex"),
